@@ -47,8 +47,11 @@ class Injected(Exception):
 class Scenario:
     def __init__(self, user, two, grepo, workdir):
         from textx import metamodel_from_str
-        from textx.scoping.providers import PlainNameImportURI
+        from textx.scoping.providers import PlainNameImportURI, PlainNameGlobalRepo
         from textx.scoping import Postponed
+
+        # grepo == "gr": global repository together with a GlobalRepo provider (models given as strings are registered there too)
+        base = PlainNameGlobalRepo if grepo == "gr" else PlainNameImportURI
 
         self.user, self.two, self.grepo = user, two, grepo
         self.dir = workdir
@@ -86,15 +89,19 @@ class Scenario:
             tick("modelproc")
         self.mm.register_obj_processors({"Node": oproc, "Leaf": oproc, "Val": mproc})
         self.mm.register_model_processor(modelproc)
-        inner = PlainNameImportURI()
+        if grepo == "gr":
+            with open(os.path.join(workdir, "grlib.m"), "w") as f:
+                f.write("l glib : 1")
+        pargs = (os.path.join(workdir, "grlib*.m"),) if grepo == "gr" else ()
+        inner = base(*pargs)
 
-        class Prov(PlainNameImportURI):
+        class Prov(base):
             def __call__(self, obj, attr, obj_ref):
                 tick("provider")
                 if sc.fault == ("postpone", obj_ref.obj_name):
                     return Postponed()
                 return inner.__call__(obj, attr, obj_ref)
-        self.mm.register_scope_providers({"*.*": Prov()})
+        self.mm.register_scope_providers({"*.*": Prov(*pargs)})
 
     def load(self, main_text, lib_text=None):
         self.counts = {}
@@ -132,7 +139,7 @@ class Scenario:
 
     def repo_state(self):
         if hasattr(self.mm, "_tx_model_repository"):
-            return sorted(os.path.basename(k) for k in self.mm._tx_model_repository.all_models.filename_to_model)
+            return sorted(os.path.basename(str(k)) for k in self.mm._tx_model_repository.all_models.filename_to_model)
         return []
 
 
@@ -260,7 +267,7 @@ def run(ctx):
         for two in (False, True):
             counts, pts = fault_points(user, two)
             total["user=%s two_files=%s" % (user, two)] = {"callback_calls": counts, "points": len(pts)}
-            for grepo in ((False, True) if two else (False,)):
+            for grepo in ((False, True) if two else (False, "gr")):
                 B = 6
                 units += [(user, two, grepo, pts[i:i + B]) for i in range(0, len(pts), B)]
     ctx.pmap(work, units)
